@@ -4,6 +4,8 @@ use serde_json::Value;
 
 pub mod c01;
 pub mod c02;
+pub mod c03;
+pub mod c04;
 pub mod c05;
 pub mod c06;
 pub mod c08;
@@ -26,6 +28,8 @@ pub fn run(prop: &str, rep: &Report) {
     match prop {
         "C01" => c01::run(rep),
         "C02" => c02::run(rep),
+        "C03" => c03::run(rep),
+        "C04" => c04::run(rep),
         "C05" => c05::run(rep),
         "C06" => c06::run(rep),
         "C08" => c08::run(rep),
@@ -47,6 +51,8 @@ pub fn replay(case: &Value) -> Vec<Violation> {
         "c16" => c16::replay(case),
         "narrow" => c15::replay(case),
         "c09" => c09::replay(case),
+        "c03" => c03::replay(case),
+        "c04" | "c04_text" => c04::replay(case),
         "c08" => c08::replay(case),
         "c02" | "c02_key" | "c02_control" | "c02_iss" => c02::replay(case),
         k => {
